@@ -50,6 +50,12 @@ MAP = [
  ("iCE Draw loader lets the SAUCE width clip", "C05", "IDF width 25 with SAUCE: last column dropped (regression guard for the IDF SAUCE fix)"),
  ("Tundra loader starts with foreground index 7", "C05", "Tundra: first cell fg black / bg colour loads with the colour that becomes palette entry 7"),
  ("compressed IDF output escapes a lone", "C05", "IDF compressed: cell (char 1, fg 0, bg 0) followed by other cells shifts the rest of the row"),
+ ("Avatar cursor positioning treats the 1-based", "C15", "Avatar file saved with screen preparation Home (^V^H 1 1): loads one row down / one column right"),
+ ("ATASCII files longer than 24 rows", "C15", "ATASCII document of 25+ rows: rows below 24 are not part of the loaded picture"),
+ ("ANSI writer skips blanks up to the right margin", "C04", "compress + cursor-forward + preserved line length: full blank row written as CSI 80 C collapses the following rows"),
+ ("ANSI writer drops the bold flag", "C04", "bold cell with fg 0..7 saved with the dark colour"),
+ ("ANSI writer records 'concealed' as 'blink'", "C04", "blinking cell after a concealed cell saved without SGR 5; ice-mode bright background lost"),
+ ("ANSI writer skips blanks on an xterm-256 background", "C04", "compress + cursor-forward + extended colours: blanks on a 48;5;n background replaced by cursor forward"),
 ]
 
 def main():
